@@ -78,7 +78,8 @@ impl<T: Corp> Ops for E<T> {
     }
     fn host(&self) -> &'static str {
         let n = std::any::type_name::<T>();
-        let un = n.contains("Map<") || n.contains("Set<");
+        // corpus structs with map fields: Big (g, h), S4 (m)
+        let un = n.contains("Map<") || n.contains("Set<") || n.contains("Big") || n.contains("S4");
         let r128 = n.contains("u128") || n.contains("i128") || n.contains("Big");
         let arr = n.contains('[');
         match (un, r128, arr) { (false, false, false) => "exact", (true, false, false) => "unordered", (false, true, false) => "range128", (true, true, false) => "unordered,range128",
@@ -101,7 +102,8 @@ macro_rules! e { ($($t:ty),* $(,)?) => { vec![$(Box::new(E::<$t>(PhantomData)) a
 macro_rules! maps_for_key { ($v:ident; $k:ty) => {
     $v.extend(e!(BTreeMap<$k, Nat>, BTreeMap<$k, Int>, BTreeMap<$k, u128>, BTreeMap<$k, i128>, BTreeMap<$k, u64>, BTreeMap<$k, String>, BTreeMap<$k, f64>,
                  BTreeMap<$k, Option<Nat>>, BTreeMap<$k, Vec<u8>>, BTreeMap<$k, ()>, BTreeMap<$k, Principal>, BTreeMap<$k, S1>,
-                 HashMap<$k, Nat>, HashMap<$k, Int>, HashMap<$k, i128>, HashMap<$k, String>, HashMap<$k, Vec<Int>>));
+                 HashMap<$k, Nat>, HashMap<$k, Int>, HashMap<$k, i128>, HashMap<$k, String>, HashMap<$k, Vec<Int>>,
+                 BTreeMap<$k, $k>, HashMap<$k, $k>, BTreeMap<$k, u32>, BTreeMap<$k, i64>, BTreeMap<$k, bool>, BTreeMap<$k, u8>, HashMap<$k, u32>));
 } }
 macro_rules! containers_for { ($v:ident; $t:ty) => {
     $v.extend(e!($t, Option<$t>, Vec<$t>, VecDeque<$t>, Option<Option<$t>>, Vec<Option<$t>>, Option<Vec<$t>>, Vec<Vec<$t>>, Box<$t>, ($t,), ($t, u8), (String, $t, Nat), [$t; 2], Result<$t, String>, Wrapper<$t>));
@@ -116,6 +118,8 @@ pub fn registry() -> Vec<Box<dyn Ops>> {
     containers_for!(v; u128); containers_for!(v; i128); containers_for!(v; Nat); containers_for!(v; Int); containers_for!(v; String); containers_for!(v; Principal);
     containers_for!(v; ()); containers_for!(v; Reserved); containers_for!(v; S1); containers_for!(v; E1); containers_for!(v; List); containers_for!(v; serde_bytes::ByteBuf);
     sets_for!(v; u8); sets_for!(v; i32); sets_for!(v; Nat); sets_for!(v; Int); sets_for!(v; String); sets_for!(v; Principal); sets_for!(v; bool); sets_for!(v; u128);
+    containers_for!(v; Empty0); containers_for!(v; Marker);
+    v.extend(e!(Marker2, Vec<Marker2>, Vec<(Reserved, ((),))>, Vec<((),)>, Option<Vec<Marker2>>, BTreeMap<u8, Marker>, Vec<Vec<Marker>>, [Marker; 3]));
     v.extend(e!(S2, S3, S4, S5, Big, Unit, Newtype, TupleStruct, Expr, Node, Tree, Wrapper<List>, Wrapper<Wrapper<u8>>, F1, Sv1,
                 Vec<F1>, Option<Sv1>, BTreeMap<String, List>, BTreeMap<String, Expr>, Vec<Tree>, Option<Box<Node>>, (Nat, Int, u128), Result<Nat, Int>, Result<(), E1>, BTreeMap<String, BTreeMap<String, Nat>>,
                 BoundedVec<4, {usize::MAX}, {usize::MAX}, u64>, BoundedVec<{usize::MAX}, 16, {usize::MAX}, u64>, BoundedVec<{usize::MAX}, {usize::MAX}, 3, String>, BoundedVec<3, 5, 2, String>, BoundedVec<5, 4, {usize::MAX}, u8>,
@@ -182,7 +186,7 @@ fn dec_case(idx: usize, reg: &[Box<dyn Ops>], g: &mut crate::gen::G) -> Value {
         match e.sample(&mut g.rng) { Ok((_, b)) => b, Err(_) => return json!({"idx": idx, "kind": "skip"}) }
     } else {
         g.ndefs = 0;
-        let wt = match choice { 3..=6 => g.related(&env, &decl_ty, 3), 7 => twin(&env, &decl_ty, 3), _ => g.typ(2) };
+        let wt = match choice { 3..=5 => g.related(&env, &decl_ty, 3), 6 => twin_one(g, &env, &decl_ty, 4), 7 => twin(&env, &decl_ty, 3), _ => g.typ(2) };
         let v = match g.val(&env, &wt, 4) { Some(v) => v, None => return json!({"idx": idx, "kind": "skip"}) };
         let args = candid::IDLArgs { args: vec![v] };
         match guard(|| args.to_bytes_with_types(&env, &[wt.clone()])) { Ok(Ok(b)) => b, _ => return json!({"idx": idx, "kind": "skip"}) }
@@ -209,6 +213,28 @@ pub fn twin(env: &candid::types::TypeEnv, t: &candid::types::Type, depth: u32) -
         Opt(a) => Opt(twin(env, a, depth - 1)),
         Record(fs) => Record(fs.iter().map(|f| Field { id: f.id.clone(), ty: twin(env, &f.ty, depth - 1) }).collect()),
         Variant(fs) => Variant(fs.iter().map(|f| Field { id: f.id.clone(), ty: twin(env, &f.ty, depth - 1) }).collect()),
+        o => o.clone(),
+    };
+    r.into()
+}
+
+/// like `twin`, but exactly one leaf position is given another meaning and everything else stays as declared
+/// (e.g. only the key of a map entry, only one field of a struct)
+pub fn twin_one(g: &mut crate::gen::G, env: &candid::types::TypeEnv, t: &candid::types::Type, depth: u32) -> candid::types::Type {
+    use candid::types::{Field, TypeInner::*};
+    if depth == 0 { return t.clone(); }
+    let t = env.trace_type(t).unwrap();
+    let pick = |g: &mut crate::gen::G, xs: &[candid::types::TypeInner]| -> candid::types::TypeInner { xs[g.rng_range(0, xs.len())].clone() };
+    let r: candid::types::TypeInner = match t.as_ref() {
+        Text => Vec(Nat8.into()),
+        Principal => Vec(Nat8.into()),
+        Nat => pick(g, &[Nat8, Int]), Int => pick(g, &[Int8, Nat]), Nat8 => pick(g, &[Int8, Bool]), Int8 => Nat8, Nat16 => Int16, Int16 => Nat16,
+        Nat32 => pick(g, &[Int32, Float32]), Int32 => pick(g, &[Nat32, Float32]), Float32 => pick(g, &[Nat32, Int32]),
+        Nat64 => pick(g, &[Int64, Float64]), Int64 => pick(g, &[Nat64, Float64]), Float64 => pick(g, &[Nat64, Int64]), Bool => pick(g, &[Nat8, Int8]),
+        Vec(a) => Vec(twin_one(g, env, a, depth - 1)),
+        Opt(a) => Opt(twin_one(g, env, a, depth - 1)),
+        Record(fs) if !fs.is_empty() => { let k = g.rng_range(0, fs.len()); Record(fs.iter().enumerate().map(|(i, f)| Field { id: f.id.clone(), ty: if i == k { twin_one(g, env, &f.ty, depth - 1) } else { f.ty.clone() } }).collect()) }
+        Variant(fs) if !fs.is_empty() => { let k = g.rng_range(0, fs.len()); Variant(fs.iter().enumerate().map(|(i, f)| Field { id: f.id.clone(), ty: if i == k { twin_one(g, env, &f.ty, depth - 1) } else { f.ty.clone() } }).collect()) }
         o => o.clone(),
     };
     r.into()
